@@ -10,6 +10,8 @@
     and nesting) the generated body is proved to be a run of the grammar of generated code [denotes] standing for the
     segment list of the template; what Go does with such a run is the trusted step, and the rendered bytes are
     compared with the generator's denotation on generated templates and environments by the C01 check.
+    The grammar describes the code as it is: the list of an @attributes command is written as the helper returns it,
+    without a separating blank -- known finding F38 (the denotation of the check has the blank).
     Not in the proved fragment: a class attribute with a conditional value (`class?`).  Attribute names are covered
     for plain characters (F06).
     OBLIGATIONS: C01_static_tree_reads_as_its_html C01_static_body_reads_as_its_html C01_static_template_code
